@@ -44,7 +44,9 @@ def schedules(draw):
             "default": draw(st.integers(0, 3)), "cycle": True, "seed": draw(st.integers(0, 2 ** 31)),
             # a model that really computes (25 ms of the calling thread's CPU time per call) under a declared time
             # limit per calculation (option time_out) that every single call respects
-            "cpu": b >= 3 and draw(st.sampled_from([False] * 11 + [True]))}
+            "cpu": b >= 3 and draw(st.sampled_from([False] * 11 + [True])),
+            # the database file is locked by somebody else for the first k write attempts of the parallel run
+            "busy": draw(st.sampled_from([0, 0, 0, 1, 2, 4])) if store else 0}
 
 
 def _burn(seconds):
@@ -108,10 +110,19 @@ def run_batch(case, clause, parallel):
     db = None
     real_connect = sqlite3.connect
 
+    busy_left = [case.get("busy", 0) if parallel else 0]
+
     class GCursor(sqlite3.Cursor):
         def execute(self, sql, *a, **kw):
             if isinstance(sql, str) and sql.lstrip().upper().startswith("INSERT INTO INDIVIDUALS"):
-                gate("sql-upsert")
+                if case.get("sqlgates"):
+                    gate("sql-upsert")
+                with lock:
+                    fire = busy_left[0] > 0
+                    if fire:
+                        busy_left[0] -= 1
+                if fire:
+                    raise sqlite3.OperationalError("database is locked")
             return super().execute(sql, *a, **kw)
 
     class GConn(sqlite3.Connection):
@@ -119,14 +130,14 @@ def run_batch(case, clause, parallel):
             return super().cursor(GCursor)
 
         def commit(self):
-            if self.in_transaction:
+            if self.in_transaction and case.get("sqlgates"):
                 gate("sql-commit")          # the exclusive lock is held here
             return super().commit()
 
     def gated_connect(*a, **kw):
         kw.setdefault("factory", GConn)
         return real_connect(*a, **kw)
-    use_sql = bool(parallel and case.get("sqlgates"))
+    use_sql = bool(parallel and (case.get("sqlgates") or case.get("busy")))
     if use_sql:
         sqlite3.connect = gated_connect
     try:
@@ -224,7 +235,8 @@ def check_schedule(case, clause="schedule"):
     return {"nt": nt, "classes": ["inflight%d" % min(sched.max_inflight, 4), "reordered" if reordered else "in-order",
                                   "store" if case["store"] else "dummy",
                                   "burst" if any(k == "burst" for _, _, k in sched.trace) else "no-burst"] + (
-                ["sql-gates"] if case.get("sqlgates") else []) + (["cpu-bound-model"] if case.get("cpu") else []),
+                ["sql-gates"] if case.get("sqlgates") else []) + (["cpu-bound-model"] if case.get("cpu") else []) + (
+                ["file-locked"] if case.get("busy") else []),
             "branching": list(sched.branching), "trace": [(t, g) for t, g, _ in sched.trace]}
 
 
@@ -477,10 +489,59 @@ def check_fatal(case):
     return {"nt": True, "classes": [case["kind"], "workers%d" % case["workers"], "store" if case["store"] else "dummy"]}
 
 
+# ---------------------------------------------------------------- the caller's joblib context
+
+@st.composite
+def context_cases(draw):
+    return {"b": draw(st.integers(2, 5)), "workers": draw(st.integers(2, 3)),
+            "backend": draw(st.sampled_from(["loky", "loky", "multiprocessing", "threading"])),
+            "seed": draw(st.integers(0, 2 ** 31))}
+
+
+def check_context(case):
+    """the batch is evaluated while the caller has selected a joblib backend of his own (as scikit-learn users do with
+    `parallel_backend('loky')`): the designs handed in must still be the ones that get evaluated"""
+    import joblib
+    from artap.individual import Individual
+    from artap.algorithm import DummyAlgorithm
+    b = case["b"]
+    lock = threading.Lock()
+    calls = {}
+
+    def ev(ind):
+        with lock:
+            calls[ind.custom["tag"]] = calls.get(ind.custom["tag"], 0) + 1
+        return _f(ind.vector)
+    ps = [{"name": "a", "bounds": [0.0, 2.0]}, {"name": "b", "bounds": [0.0, 2.0]}]
+    cs = [{"name": "f0", "criteria": "minimize"}, {"name": "f1", "criteria": "maximize"}]
+    prob = make_problem(ps, cs, ev)
+    seed_all(case["seed"])
+    try:
+        alg = DummyAlgorithm(prob)
+        alg.options["max_processes"] = case["workers"]
+        inds = []
+        for tag, v in enumerate(_vectors(b)):
+            ind = Individual(list(v))
+            ind.custom["tag"] = tag
+            inds.append(ind)
+        with guard("context"):
+            with joblib.parallel_backend(case["backend"], n_jobs=case["workers"]):
+                alg.evaluate(inds)
+        for t, ind in enumerate(inds):
+            if "EVALUATED" not in str(ind.state) or [float(c) for c in ind.costs] != _f(ind.vector) or calls.get(t, 0) != 1:
+                raise Violation("context", "design-not-evaluated:%s" % case["backend"], "inside parallel_backend(%r) design "
+                                "%d came back in state %s with costs %r after %d objective calls in this process" % (
+                                    case["backend"], t, ind.state, list(ind.costs), calls.get(t, 0)))
+    finally:
+        dispose(prob)
+    return {"nt": case["backend"] != "threading", "classes": [case["backend"], "workers%d" % case["workers"]]}
+
+
 CLAUSES = [
     Clause("schedule", schedules(), check_schedule, quick=400, thorough=3000, quick_shards=4),
     Clause("run-schedule", run_schedules(), check_run_schedule, quick=80, thorough=600, quick_shards=4),
     Clause("fatal", fatal_cases(), check_fatal, quick=60, thorough=600, quick_shards=2),
+    Clause("context", context_cases(), check_context, quick=8, thorough=60, quick_shards=2),
 ]
 ENUMS = [
     Enum("all-schedules", subtree_items, check_subtree, tiers=("quick", "thorough"), chunk=1,
